@@ -237,7 +237,8 @@ def schemaExpr (O : EOra) : Schema → Option PyVal → PyExpr
   | .arrOf s sz, d => callS chars!"Array" (withDefault O d (arrKws sz true ++ kw chars!"items" (schemaExpr O s none)))
   | .arrPos ss addl sz, d =>
     callS chars!"Array" (withDefault O d (arrKws sz addl ++ kw chars!"items" (.list (schemaExprL O ss))))
-  | .mapAny _ _ _, d => callS chars!"Map" (withDefault O d [])
+  | .mapAny _ mn mx, d =>
+    callS chars!"Map" (withDefault O d (optKw chars!"maxItems" natExpr mx ++ optKw chars!"minItems" natExpr mn))
   | .mapOf v mn mx, d =>
     callS chars!"Map" (withDefault O d
       (kw chars!"items" (.list [callS chars!"String" [], schemaExpr O v none])
@@ -433,9 +434,10 @@ termination_by structural ps => ps
 end
 
 
+/-- every description is fine since the repair of `unescaped:description-nul` (NUL is written `\x00`);
+    kept as a named side condition -/
 def descOk : Option String → Bool
-  | none => true
-  | some d => !d.toList.contains cNUL
+  | _ => true
 
 /-- the schema of a class statement (top level: `schema_to_struct_code`) is printed well-formed -/
 def classSchemaOk (s : Schema) : Bool :=
